@@ -71,6 +71,47 @@ def fixed_dcs(tier):
     return out
 
 
+def gen_dedup(rng):
+    """delivery schedule over sequentially issued one-shot key ids (< 3000): mostly ascending with
+    jumps, probes at the window edges 894..898 below the running maximum, replays, stragglers"""
+    n = rng.choice([2, 5, 10, 20, 40, 80])
+    out = []
+    mx = None
+    for _ in range(n):
+        r = rng.random()
+        if mx is None:
+            v = rng.choice([0, 1, 5, 895, 896, 897, 1000, rng.randrange(0, 2000)])
+        elif r < 0.30:
+            v = mx + rng.choice([1, 1, 2, 3, 64, 500, 894, 895, 896, 897, 898, rng.randrange(1, 1200)])
+        elif r < 0.60:
+            v = mx - rng.choice([893, 894, 895, 896, 897, 898, 899])
+        elif r < 0.75 and out:
+            v = rng.choice(out)                      # replay
+        elif r < 0.90:
+            v = mx - rng.randrange(0, 896)
+        else:
+            v = rng.randrange(0, mx + 1)
+        v = max(0, min(2999, v))
+        out.append(v)
+        mx = v if mx is None else max(mx, v)
+    return out
+
+
+def fixed_dedup(tier):
+    out = [[], [0], [0, 0]]
+    for base in (895, 896, 897, 1000, 2000, 2999):
+        for d in (893, 894, 895, 896, 897, 898):
+            if base - d >= 0:
+                out.append([base, base - d, base - d, base])
+                out.append([base - d, base, base - d])
+                out.append([base, base - 1, base - d, base - d + 1, base - d - 1 if base - d >= 1 else 0])
+    out.append([1000, 105, 104, 105, 1000])
+    out.append([2000, 2000, 1105, 1104, 1103, 1999, 2000])
+    out.append(list(range(0, 40)) + list(range(39, -1, -1)))
+    out.append([0, 896, 1, 895, 897, 2, 1792, 897, 896, 898])
+    return out
+
+
 def mt_check(ctx, stats):
     """supporting evidence for the linearisation argument: real threads share one sender"""
     cases = [[4, 20000, 0, 0], [8, 20000, 7, 977], [16, 5000, 3, 12345]]
@@ -115,6 +156,10 @@ registry.register("C19", {
         {"name": "dcs", "gen": gen_dcs, "fixed": fixed_dcs, "quick": 20000, "thorough": 500000,
          "valid": lambda c: all(0 <= v <= VMAX for v in c),
          "nontrivial": lambda case, out: len(out) >= 2 and 1 in case},
+        {"name": "dedup", "gen": gen_dedup, "fixed": fixed_dedup, "quick": 4000, "thorough": 60000,
+         "valid": lambda c: all(0 <= v <= 2999 for v in c),
+         "nontrivial": lambda case, out: len(set(out)) >= 2,
+         "histogram": lambda cases, outs: {"codes": {k: sum(o.split().count(k) for o in outs) for k in ("0", "1", "2", "3")}}},
     ],
     "extra_checks": [mt_check],
     "rule": "cases: corpus + boundary families (window edges 894..898, reserved maximum; all sequences of length <= 4 (quick) / 6 (thorough) over {0,1,2,895,896,897,898,2^62-1}) + seeded random id sequences clustered within +-900/3000 of the running maximum with replays and huge jumps; a receiver case is non-trivial when at least two different result codes occur, a sender case when it mixes next_key_id and StaleKey updates",
